@@ -22,7 +22,13 @@ MANIFEST = {
             'simulator for (m,t) in {(1,0),(2,0),(3,1),(4,1),(5,2)} x PRSS on/off (thorough adds (7,3)) on inputs shared '
             'with mpc.input: range extremes, all values of the <= 8-bit types (sweep configurations), random others; every '
             'party\'s output is compared with a Python oracle (value preserved / floor or floor+1 / canonical representative) '
-            'and all parties must agree.',
+            'and all parties must agree. The quick tier adds PRSS configurations with many subsets ((7,3): 35, (6,2): 15) '
+            'for all ordered int/fxp pairs. The hypothesis r <= 2^(k+l) is tied to the code: the mask bound of _convert '
+            '(both branches) and the dealer count, and the bound scaling of _randoms (used by trunc/_mod), are extracted from '
+            'the source on every run (fail closed) and "contributions * (bound - 1) <= 2^(k+l)" is compiled by vm_compute for '
+            'all (m,t) with m <= 8, PRSS and no-PRSS, l = 1..64. Aliasing stream: convert(list, T) is called, the caller\'s '
+            'list is then reversed / overwritten / shortened / extended before the result is awaited (m = 1 asynchronous '
+            'and m = 3); expected are the values at call time.',
     'note': 'Share-level layer (input, output, PRSS, shares of the trunc/_mod sub-protocols) is covered by the simulator '
             'runs only. The Coq model convert_v is evaluated on int/fxp-source cases of the runs with random in-range r and '
             'trunc tapes and must lie in the oracle set and agree with the implementation outputs (input/output level; tapes '
